@@ -20,6 +20,7 @@ func init() {
 			"C05.closeorder: close(c.closed) precedes rwc.Close() precedes the reader/writer teardown, each once, under their mutexes",
 			"C05.noreacquire: no call made while holding a channel mutex synchronously reaches an acquisition of the same mutex (self-deadlock / close inside the read stack)",
 			"C05.recheck: mu.lock re-checks closed after acquisition",
+			"C05.spawn: the goroutines and timers the library starts are the frozen list of C20.inventory: the lock discipline is decided for these concurrent entry points and the API; C05.closers: the teardown sites are frozen (shared with C04.closers)",
 		},
 		NotDecided: []string{"freedom from races on fields outside the guarded-by table", "per-writer message order and what the peer observes under a given interleaving", "prefix property of bytes returned by a read racing with Close"},
 		Trusted:    []string{"go/types, go/ssa", "Go memory model for channel-based mutex and sync.Mutex", "funnel proof of callback fields (C07.funnel)"},
@@ -204,6 +205,9 @@ func c05guard(p *Program, r *Report, env *lockEnv, rule string, only map[string]
 				}
 				okAtomic := true
 				fai, _ := fa.Instr.(*ssa.FieldAddr)
+				if fa.Write && !fa.Read && constructorFns[p.FuncName(root)] {
+					continue // initialised before the object is published
+				}
 				if fai == nil || fa.Read || fa.Write {
 					okAtomic = false
 				} else {
@@ -216,9 +220,12 @@ func c05guard(p *Program, r *Report, env *lockEnv, rule string, only map[string]
 							okAtomic = false
 							continue
 						}
-						_, nm := p.calleeOf(ci.Common())
-						if !strings.HasPrefix(nm, "atomic.") {
-							okAtomic = false
+						callee, nm := p.calleeOf(ci.Common())
+						if !strings.HasPrefix(nm, "atomic.") && !strings.HasPrefix(nm, "(*atomic.") && !strings.HasPrefix(nm, "(*sync/atomic.") {
+							// the address handed to a library helper that itself only passes it to sync/atomic
+							if !(callee != nil && p.isLib(callee) && atomicOnlyParam(p, callee, ci.Common().Args, fai)) {
+								okAtomic = false
+							}
 						}
 					}
 				}
@@ -832,4 +839,33 @@ func c05leak(p *Program, r *Report, env *lockEnv, rule string) {
 			firstNonEmpty(bad, "locks acquired here: {"+strings.Join(la.Names(prim), ",")+"}; all released on every return"))
 	}
 	r.Floor(rule, 10)
+}
+
+// atomicOnlyParam: the parameter of callee that receives addr is used for nothing but calls of sync/atomic functions.
+func atomicOnlyParam(p *Program, callee *ssa.Function, args []ssa.Value, addr ssa.Value) bool {
+	found := false
+	for i, a := range args {
+		if a != addr || i >= len(callee.Params) {
+			continue
+		}
+		found = true
+		refs := callee.Params[i].Referrers()
+		if refs == nil {
+			return false
+		}
+		for _, ref := range *refs {
+			if _, isDbg := ref.(*ssa.DebugRef); isDbg {
+				continue
+			}
+			ci, ok := ref.(ssa.CallInstruction)
+			if !ok {
+				return false
+			}
+			_, nm := p.calleeOf(ci.Common())
+			if !strings.HasPrefix(nm, "atomic.") {
+				return false
+			}
+		}
+	}
+	return found
 }
